@@ -109,6 +109,15 @@ func (m *C09) After(w *world.World, a *world.Action) {
 		return
 	}
 	p := sent[0]
+	hop := p.DestinationChain
+	if p.RelayChain != "" {
+		hop = p.RelayChain
+	}
+	if !world.HasClient(a.On, hop) {
+		violate(w, m.R, "send-accepted-towards-unknown-chain", map[string]string{"kind": a.Kind, "relayed": fmt.Sprint(p.RelayChain != "")},
+			fmt.Sprintf("%s has no client of the next hop %s", on, hop))
+		return
+	}
 	pair := on + "|" + p.DestinationChain
 	want := m.next[pair]
 	if want == 0 {
